@@ -40,13 +40,16 @@ Use == /\ l <= Len(Rec) /\ Ev.ev \in {"h_use", "h_peer"} /\ l' = l + 1
             <<Ev.got = 0 - 1 /\ Generous /\ ~cut /\ Ev.cid \in arrived /\ Ev.ev = "h_use", "a half of a delivered value is not connected to its counterpart">>,
             <<Ev.got = 0 - 1 /\ Generous /\ ~cut /\ Ev.cid \in arrived /\ Ev.ev = "h_peer", "the counterpart of a delivered half failed although nothing was exhausted or cut">> >>)
        /\ UNCHANGED <<cfg, items, arrived, cut>>
+Oversize == /\ Is("st_oversize_emitted")
+            /\ bad' = FirstOf(<< <<TRUE, "port requests were packed into a frame longer than the peer's stream transport accepts (the connection is lost)">> >>)
+            /\ UNCHANGED <<cfg, items, arrived, cut>>
 Fault == /\ Is("fault") /\ cut' = TRUE /\ UNCHANGED <<cfg, items, arrived, bad>>
 End == /\ Is("w_end")
        /\ bad' = FirstOf(<< <<Ev.pending > 0, "tasks using embedded channel halves never finished (hang)">> >>)
        /\ UNCHANGED <<cfg, items, arrived, cut>>
-Known == {"reset", "w_item", "w_lost", "w_recv", "h_use", "h_peer", "fault", "w_end"}
+Known == {"st_oversize_emitted", "reset", "w_item", "w_lost", "w_recv", "h_use", "h_peer", "fault", "w_end"}
 Skip == /\ l <= Len(Rec) /\ Ev.ev \notin Known /\ l' = l + 1 /\ UNCHANGED <<cfg, items, arrived, cut, bad>>
-Next == Reset \/ Item \/ Lost \/ Recv \/ Use \/ Fault \/ End \/ Skip
+Next == Oversize \/ Reset \/ Item \/ Lost \/ Recv \/ Use \/ Fault \/ End \/ Skip
 Spec == Init /\ [][Next]_vars
 Inv_C05 == bad = <<>> \/ bad[1] # "C05"
 Inv_TOOL == bad = <<>> \/ bad[1] # "TOOL"
